@@ -19,9 +19,17 @@ import (
 	spb "google.golang.org/genproto/googleapis/rpc/status"
 )
 
+// respHandler is the registration of one call: responses are handed over on
+// ch; done is closed when the call is unregistered or the connection fails, so
+// that neither side of the hand-off waits for a peer that has gone.
+type respHandler struct {
+	ch   chan *goatorepo.Rpc
+	done chan struct{}
+}
+
 type RpcMultiplexer struct {
 	rw       types.RpcReadWriter
-	handlers map[uint64]chan *goatorepo.Rpc
+	handlers map[uint64]respHandler
 
 	ctx    context.Context
 	cancel context.CancelFunc
@@ -36,7 +44,7 @@ type RpcMultiplexer struct {
 func NewRpcMultiplexer(rw types.RpcReadWriter) *RpcMultiplexer {
 	rm := &RpcMultiplexer{
 		rw:       rw,
-		handlers: make(map[uint64]chan *goatorepo.Rpc),
+		handlers: make(map[uint64]respHandler),
 		codec:    encoding.GetCodecV2(proto.Name),
 	}
 
@@ -64,8 +72,8 @@ func (rm *RpcMultiplexer) closeError(err error) {
 
 	if err != nil {
 		rm.rErr = err
-		for id, ch := range rm.handlers {
-			close(ch)
+		for id, h := range rm.handlers {
+			close(h.done)
 			delete(rm.handlers, id)
 		}
 	}
@@ -88,7 +96,8 @@ func (rm *RpcMultiplexer) CallUnaryMethod(
 
 	respChan := make(chan *goatorepo.Rpc, 1)
 
-	if err := rm.registerHandler(streamId, respChan); err != nil {
+	respDone, err := rm.registerHandler(streamId, respChan)
+	if err != nil {
 		return nil, err
 	}
 	defer rm.unregisterHandler(streamId)
@@ -99,17 +108,16 @@ func (rm *RpcMultiplexer) CallUnaryMethod(
 		Body:   body,
 	}
 
-	err := rm.rw.Write(ctx, &rpc)
+	err = rm.rw.Write(ctx, &rpc)
 	if err != nil {
 		log.Error().Err(err).Msg("CallUnaryMethod: conn.Write")
 		return nil, err
 	}
 
 	select {
-	case resp, ok := <-respChan:
-		if !ok {
-			return nil, fmt.Errorf("respChan closed")
-		}
+	case <-respDone:
+		return nil, fmt.Errorf("respChan closed")
+	case resp := <-respChan:
 		for _, sh := range statsHandlers {
 			headers, _ := internal.ToMetadata(resp.GetHeader().Headers)
 
@@ -151,7 +159,8 @@ func (rm *RpcMultiplexer) NewStreamReadWriter(
 	streamId := atomic.AddUint64(&rm.streamCounter, 1)
 
 	respChan := make(chan *goatorepo.Rpc, 1)
-	if err := rm.registerHandler(streamId, respChan); err != nil {
+	respDone, err := rm.registerHandler(streamId, respChan)
+	if err != nil {
 		return 0, nil, nil, err
 	}
 
@@ -162,14 +171,13 @@ func (rm *RpcMultiplexer) NewStreamReadWriter(
 	rw := internal.NewFnReadWriter(
 		func(ctx context.Context) (*goatorepo.Rpc, error) {
 			select {
-			case rpc, ok := <-respChan:
-				if !ok {
-					if err := rm.readErrorIfDone(); err != nil {
-						return nil, err
-					}
-					return nil, fmt.Errorf("respChan closed")
-				}
+			case rpc := <-respChan:
 				return rpc, nil
+			case <-respDone:
+				if err := rm.readErrorIfDone(); err != nil {
+					return nil, err
+				}
+				return nil, fmt.Errorf("respChan closed")
 			case <-ctx.Done():
 				return nil, ctx.Err()
 			}
@@ -202,19 +210,27 @@ func (rm *RpcMultiplexer) readLoop() error {
 
 func (rm *RpcMultiplexer) handleResponse(rpc *goatorepo.Rpc) {
 	rm.mutex.Lock()
-	defer rm.mutex.Unlock()
-
-	ch, ok := rm.handlers[rpc.GetId()]
+	h, ok := rm.handlers[rpc.GetId()]
 	if !ok {
 		// TODO: getting log lines from here after cancelling streams
 		log.Error().Msgf("Mux: unhandled Rpc %d", rpc.GetId())
 		vEmit("mux.unknown", rm, rpc.GetId(), len(rm.handlers), "")
+	}
+	rm.mutex.Unlock()
+	if !ok {
 		return
 	}
-	ch <- rpc
+
+	// Hand over without holding the registry lock: the call's teardown needs
+	// that lock, and a call that has gone (cancelled, over-answered) never
+	// empties its queue.
+	select {
+	case h.ch <- rpc:
+	case <-h.done:
+	}
 }
 
-func (rm *RpcMultiplexer) registerHandler(id uint64, c chan *goatorepo.Rpc) error {
+func (rm *RpcMultiplexer) registerHandler(id uint64, c chan *goatorepo.Rpc) (<-chan struct{}, error) {
 	rm.mutex.Lock()
 	defer rm.mutex.Unlock()
 
@@ -222,20 +238,21 @@ func (rm *RpcMultiplexer) registerHandler(id uint64, c chan *goatorepo.Rpc) erro
 	// after that would never be woken up, so refuse it here, atomically with
 	// the registration.
 	if rm.rErr != nil {
-		return rm.rErr
+		return nil, rm.rErr
 	}
 
-	rm.handlers[id] = c
+	h := respHandler{ch: c, done: make(chan struct{})}
+	rm.handlers[id] = h
 	vEmit("mux.reg", rm, id, len(rm.handlers), "")
-	return nil
+	return h.done, nil
 }
 
 func (rm *RpcMultiplexer) unregisterHandler(id uint64) {
 	rm.mutex.Lock()
 	defer rm.mutex.Unlock()
 
-	if ch, ok := rm.handlers[id]; ok {
-		close(ch)
+	if h, ok := rm.handlers[id]; ok {
+		close(h.done)
 	}
 
 	delete(rm.handlers, id)
